@@ -319,8 +319,9 @@ class RedshiftBinningFactory:
         if not isinstance(comov_edges, units.Quantity):
             comov_edges = comov_edges * units.Mpc
 
-        edges = z_at_value(self.cosmology.comoving_distance, comov_edges)
-        return Binning(edges.value, closed=closed)
+        edges = z_at_value(self.cosmology.comoving_distance, comov_edges).value
+        edges[0], edges[-1] = min, max  # the numerical inversion is not exact
+        return Binning(edges, closed=closed)
 
     def logspace(
         self,
@@ -333,6 +334,7 @@ class RedshiftBinningFactory:
         """Creates a binning linear in 1+ln(z) between a min and max redshift."""
         log_min, log_max = np.log([1.0 + min, 1.0 + max])
         edges = np.logspace(log_min, log_max, num_bins + 1, base=np.e) - 1.0
+        edges[0], edges[-1] = min, max  # exp(log(1 + z)) - 1 is not exact
         return Binning(edges, closed=closed)
 
     def get_method(
